@@ -40,8 +40,9 @@
 
   Unmodelled (explicit): a container-typed struct field (`vers`, `rcvrs`,
   `authenticators`) given twice in map form (go-codec merges into the old value);
-  a generic map with two keys that may be equal (go-codec decodes the second value
-  INTO the first one's dynamic type).
+  a generic map with a repeated key whose stored value is not a scalar (go-codec
+  decodes the second value INTO the first one's dynamic type; followed for nil, ints,
+  bools and floats), or with two timestamp keys.
 
   Core Lean only.
 -/
@@ -222,17 +223,65 @@ def decBytesField : Dec Bytes := do
 
 /-! ### generic decoding (`interface{}`) and `swallow`, with go-codec's depth limit -/
 
-/-- what a generically decoded value is worth as a Go map key -/
+/-- what a generically decoded value is worth as a Go map key.  A float key is
+    kept as its `float64` value in canonical form (sign, exponent, mantissa;
+    `none` = NaN, which never equals anything; ±0 identified) -/
 inductive GKey where
   | nil | bool (b : Bool) | int (i : Int) | uint (n : Nat) | bytes (b : Bytes)
-  | float | time | unhashable
+  | float (c : Option (Bool × Nat × Nat)) | time | unhashable
   deriving Repr, DecidableEq
 
-/-- may two decoded keys be equal as Go map keys? (conservative for floats and times) -/
-def GKey.mayEqual : GKey → GKey → Bool
-  | .float, .float => true
-  | .time, .time => true
+def f64canon (n : Nat) : Option (Bool × Nat × Nat) :=
+  let s := n / 2 ^ 63
+  let e := (n / 2 ^ 52) % 2048
+  let m := n % 2 ^ 52
+  if e = 2047 ∧ m ≠ 0 then none
+  else if e = 0 ∧ m = 0 then some (false, 0, 0)
+  else some (s == 1, e, m)
+
+/-- a `float32` converted to `float64` (exact) -/
+def f32canon (n : Nat) : Option (Bool × Nat × Nat) :=
+  let s := n / 2 ^ 31
+  let e := (n / 2 ^ 23) % 256
+  let m := n % 2 ^ 23
+  if e = 255 then (if m ≠ 0 then none else some (s == 1, 2047, 0))
+  else if e = 0 then
+    if m = 0 then some (false, 0, 0)
+    else
+      let p := Nat.log2 m
+      some (s == 1, p + 874, (m - 2 ^ p) * 2 ^ (52 - p))
+  else some (s == 1, e + 896, m * 2 ^ 29)
+
+/-- are two decoded keys the same Go map key? -/
+def GKey.same : GKey → GKey → Bool
+  | .float none, _ => false
   | a, b => a == b
+
+/-- equality the model does not decide (two timestamps) -/
+def GKey.unsure : GKey → GKey → Bool
+  | .time, .time => true
+  | _, _ => false
+
+/-- the dynamic type of a value stored in a generic map, as far as a later
+    value for the same key is decoded INTO it (`mv = v[mk]; d.decode(&mv)`) -/
+inductive GVal where
+  | nil | int | uint | bool | float | other
+  deriving Repr, DecidableEq
+
+def GVal.ofKey : GKey → GVal
+  | .nil => .nil
+  | .int _ => .int
+  | .uint _ => .uint
+  | .bool _ => .bool
+  | .float _ => .float
+  | _ => .other
+
+/-- msgpackDecDriver.DecodeFloat64 (only what is consumed / whether it fails) -/
+def decodeFloat64 : Dec Unit := do
+  let bd ← peek1
+  if bd = 0xca then do let _ ← readn1; let _ ← readx 4; pure ()
+  else if bd = 0xcb then do let _ ← readn1; let _ ← readx 8; pure ()
+  else do let _ ← decodeInt64; pure ()
 
 def extLen (c : Nat) : Dec Nat :=
   if c = 0xd4 then pure 1 else if c = 0xd5 then pure 2 else if c = 0xd6 then pure 4
@@ -247,8 +296,8 @@ def nakedScalar (c : Nat) : Dec (Option GKey) :=
   if c = 0xc0 then pure (some .nil)
   else if c = 0xc2 then pure (some (.bool false))
   else if c = 0xc3 then pure (some (.bool true))
-  else if c = 0xca then do let _ ← readx 4; pure (some .float)
-  else if c = 0xcb then do let _ ← readx 8; pure (some .float)
+  else if c = 0xca then (fun n => some (.float (f32canon n))) <$> readBE 4
+  else if c = 0xcb then (fun n => some (.float (f64canon n))) <$> readBE 8
   else if c = 0xcc then (fun n => some (.uint n)) <$> readBE 1
   else if c = 0xcd then (fun n => some (.uint n)) <$> readBE 2
   else if c = 0xce then (fun n => some (.uint n)) <$> readBE 4
@@ -320,19 +369,36 @@ def genArr : (fuel rem n : Nat) → Dec Unit
       let _ ← gen fuel rem
       genArr fuel rem n
 
-/-- the pairs of a generic map (fast-path DecMapIntfIntfV) -/
-def genMap : (fuel rem n : Nat) → List GKey → Dec Unit
+/-- the pairs of a generic map (fast-path DecMapIntfIntfV); `keys`: what is
+    stored so far, newest first.  A value for a key that is already there is
+    decoded into the stored value's dynamic type (kInterface on a non-nil
+    interface), which the model follows for the scalar types. -/
+def genMap : (fuel rem n : Nat) → List (GKey × GVal) → Dec Unit
   | 0, _, _, _ => fail (.unmodelled "fuel")
   | _ + 1, _, 0, _ => pure ()
   | fuel + 1, rem, n + 1, keys => do
     let k ← gen fuel rem
     let isNil ← tryNil
     if k = .unhashable then bad "hash of unhashable type"
-    else if keys.any (GKey.mayEqual k) then fail (.unmodelled "generic map with a repeated key")
-    else if isNil then genMap fuel rem n (k :: keys)
+    else if keys.any (fun kv => GKey.unsure kv.1 k) then fail (.unmodelled "generic map with two timestamp keys")
+    else if isNil then genMap fuel rem n ((k, .nil) :: keys)
     else
-      let _ ← gen fuel rem
-      genMap fuel rem n (k :: keys)
+      let prev := match keys.find? (fun kv => GKey.same kv.1 k) with
+        | some (_, t) => t
+        | none => .nil
+      match prev with
+      | .nil => do
+        let v ← gen fuel rem
+        genMap fuel rem n ((k, GVal.ofKey v) :: keys)
+      | .other => fail (.unmodelled "generic map: a repeated key whose first value is not a scalar")
+      | t =>
+        if rem = 0 then bad "max depth exceeded" else do
+        match t with
+        | .int => do let _ ← decodeInt64; pure ()
+        | .uint => do let _ ← decodeUint64; pure ()
+        | .bool => do let _ ← decodeBool; pure ()
+        | _ => decodeFloat64
+        genMap fuel rem n ((k, t) :: keys)
 end
 
 mutual
